@@ -27,6 +27,7 @@ Definition out_beq (a b : ot) : bool :=
   match a, b with
   | OReq o r, OReq p q => option_beq N.eqb o p && resp_beq r q
   | ORes x, ORes y => Bool.eqb x y
+  | OCtx, OCtx => true
   | OFlush d, OFlush e => list_beq dent_beq d e
   | OHandle x, OHandle y => option_beq Bool.eqb x y
   | OVal x, OVal y => option_beq N.eqb x y
@@ -45,12 +46,14 @@ Definition H (n : name) : ev := ESecret n.
 Definition G (n : name) (now_s : N) : ev := ERead n (Z.of_N now_s).
 Definition L (n : name) (now_s : N) (fail : bool) : ev := ELookup n (Z.of_N now_s) fail.
 Definition X : ev := EShutdown.
+Definition C (k : N) : ev := ECancel (N.to_nat k).
 
 Definition rn : resp N := RNotChanged.
 Definition rv (v b : N) : resp N := RValue v b.
 Definition re : resp N := RErr.
 Definition oq (old : option N) (r : resp N) : ot := OReq old r.
 Definition os (ok : bool) : ot := ORes ok.
+Definition oc : ot := OCtx.
 Definition D (n : name) (v b last : N) : doc_entry N := (n, Some (v, b, Z.of_N last)).
 Definition ofl (d : list (doc_entry N)) : ot := OFlush d.
 Definition oh (h : option bool) : ot := OHandle h.
